@@ -768,6 +768,9 @@ type choiceParams struct {
 	groupName string
 }
 
+// unusableWordSize marks a code alternative that cannot be assembled
+const unusableWordSize = 1 << 20
+
 func (bi *BasmInstance) CodeChoice(rSize uint8, i int, sh string) error {
 	if i >= len(bi.cps) || i < 0 {
 		return errors.New("index out of range")
@@ -798,6 +801,7 @@ func (bi *BasmInstance) CodeChoice(rSize uint8, i int, sh string) error {
 		ramDataAlts := strings.Split(cp.GetMeta("ramdataalternatives"), ":")
 
 		params := make([]choiceParams, len(romAlts)*len(ramAlts))
+		var lastErr error
 
 		if bi.debug {
 
@@ -890,7 +894,10 @@ func (bi *BasmInstance) CodeChoice(rSize uint8, i int, sh string) error {
 					if prog, err := myArch.Assembler([]byte(prog)); err == nil {
 						tempCP.Program = prog
 					} else {
-						return err
+						// The alternative cannot encode the program (e.g. an immediate does not fit), it is not eligible
+						params[ii*len(ramAlts)+jj].wordSize = unusableWordSize
+						lastErr = err
+						continue
 					}
 
 					romAltContrib = len(bi.sections[romAlt].sectionBody.Lines)
@@ -932,7 +939,7 @@ func (bi *BasmInstance) CodeChoice(rSize uint8, i int, sh string) error {
 			}
 			var ci string
 			var cj string
-			minSize := 1024
+			minSize := unusableWordSize
 			for ii, romAlt := range romAlts {
 				iiGuessedName := ""
 				if strings.HasPrefix(romAlt, "romcode") {
@@ -954,6 +961,10 @@ func (bi *BasmInstance) CodeChoice(rSize uint8, i int, sh string) error {
 						cj = ramAlt
 					}
 				}
+			}
+
+			if minSize >= unusableWordSize {
+				return fmt.Errorf("none of the code alternatives can be assembled: %v", lastErr)
 			}
 
 			if bi.debug {
